@@ -252,24 +252,24 @@ func (c *Ctx) finish(verifDir string, t0 time.Time, writeEvidence bool, extraCfg
 		". NOT DECIDED by this check (run-time/value/history-level clauses of the property): " + strings.Join(c.NotDec, "; ") + "."
 	cfgs := append([]string{"linux/amd64 default tags"}, extraCfg...)
 	cov := map[string]interface{}{
-		"explanation":          expl,
-		"obligations":          len(c.Obs),
-		"discharged":           discharged,
-		"known_findings_hit":   len(knownHit),
-		"evaluations":          len(c.Obs),
-		"distinct_nontrivial":  nontrivial,
-		"rule":                 "one obligation per (rule, function, construct); non-trivial = the obligation inspected at least one real construct (guard edge, sink, call site, field) of /repo's current source",
-		"samples":              samples,
-		"obligations_per_rule": perRule,
-		"functions_analysed":   fns,
-		"packages_loaded":      len(c.P.ByPath),
-		"files_loaded":         c.P.Files,
+		"explanation":                  expl,
+		"obligations":                  len(c.Obs),
+		"discharged":                   discharged,
+		"known_findings_hit":           len(knownHit),
+		"evaluations":                  len(c.Obs),
+		"distinct_nontrivial":          nontrivial,
+		"rule":                         "one obligation per (rule, function, construct); non-trivial = the obligation inspected at least one real construct (guard edge, sink, call site, field) of /repo's current source",
+		"samples":                      samples,
+		"obligations_per_rule":         perRule,
+		"functions_analysed":           fns,
+		"packages_loaded":              len(c.P.ByPath),
+		"files_loaded":                 c.P.Files,
 		"ignored_by_build_constraints": c.P.Ignored,
-		"build_configs":        cfgs,
-		"checker_cmd":          "bin/kvet check -prop " + c.Prop + " -tier " + c.Tier,
-		"trusted_base":         []string{"Go toolchain (go/types)", "golang.org/x/tools v0.29.0 go/packages, go/ssa, callgraph/{cha,vta}", "kvet engine and its per-property anchor tables (/verif/kvet/rules_*.go)"},
-		"exhaustive":           false,
-		"load_s":               c.P.LoadS,
+		"build_configs":                cfgs,
+		"checker_cmd":                  "bin/kvet check -prop " + c.Prop + " -tier " + c.Tier,
+		"trusted_base":                 []string{"Go toolchain (go/types)", "golang.org/x/tools v0.29.0 go/packages, go/ssa, callgraph/{cha,vta}", "kvet engine and its per-property anchor tables (/verif/kvet/rules_*.go)"},
+		"exhaustive":                   false,
+		"load_s":                       c.P.LoadS,
 	}
 	for k, v := range c.Extra {
 		cov[k] = v
